@@ -30,6 +30,13 @@ NextMP == \E kind \in {"desc", "flow", "aggregate", "table", "port", "queue", "p
             /\ (kind \in {"desc", "aggregate"} => n = 1)
             /\ c' = <<kind, n, tag>>
             /\ Emit("MP", MpReplyTree(kind, n, tag))
+\* flow-stats replies with a minimal record (match-all, no instructions: 56 bytes, e.g. a table-miss flow) at every position of the
+\* list -- an element that exactly fills what is left of the buffer when it comes last
+NextMPmin == \E n \in 1..3, k \in 1..3, tag \in Tags :
+               /\ k <= n
+               /\ c' = <<"flowmin", n, k, tag>>
+               /\ LET normal == StatsBody("flow", n, tag) IN
+                  Emit("MP", [MpReplyTree("flow", 0, tag) EXCEPT !.Body = [i \in 1..n |-> IF i = k THEN FlowStatsTree(<<>>, <<>>, tag + 50 + i) ELSE normal[i]]])
 InnerMsg2(kind, tag) ==
   CASE kind \in SimpleKinds -> SimpleEl("in", kind, tag)
     [] kind = "flowmod" -> FlowModEl("in", tag % 5, <<MF("inf", DecMF(tag), tag, FALSE)>>, <<>>, tag)
@@ -91,6 +98,6 @@ BigFrame(shape) ==
 BigShapes == {"flowstats", "flowstats-instr", "portdesc", "error", "hello", "flowmod", "groupmod", "pktout"}
 NextBIG == \E shape \in BigShapes : c' = <<shape>> /\ EmitBig(shape, BigFrame(shape))
 Init == c = <<>>
-Next == c = <<>> /\ CASE Family = "EB" -> NextEB [] Family = "SW" -> NextSW [] Family = "XO" -> NextXO [] Family = "PI" -> NextPI [] Family = "MP" -> NextMP [] Family = "CT" -> NextCT [] Family = "BIG" -> NextBIG
+Next == c = <<>> /\ CASE Family = "EB" -> NextEB [] Family = "SW" -> NextSW [] Family = "XO" -> NextXO [] Family = "PI" -> NextPI [] Family = "MP" -> (NextMP \/ NextMPmin) [] Family = "CT" -> NextCT [] Family = "BIG" -> NextBIG
 Spec == Init /\ [][Next]_c
 =============================================================================
